@@ -122,6 +122,9 @@ theorem MoveToFront_eq (d : Deque) (addr : Nat) : Deque_MoveToFront d addr = d.m
         · simp [load_store_same _ hl, store_store_same]
         · simp [store_oob _ hl]
 
+/-- closes what is left once both sides are normalised: the same `if` on both sides, pushed through `some` / the pair -/
+local macro "dq_close" : tactic => `(tactic| first | done | (split <;> simp [*]) | (repeat' split) <;> simp_all)
+
 theorem InsertAfter_eq (d : Deque) (value mark : Nat) : Deque_InsertAfter d value mark = d.insertAfter value mark := by
   unfold Deque_InsertAfter Deque.insertAfter
   simp only [getElement_eq, Get_eq, IsNil_eq]
@@ -142,11 +145,17 @@ theorem InsertAfter_eq (d : Deque) (value mark : Nat) : Deque_InsertAfter d valu
         cases h2 : d1.get (d1.load e0).next with
         | none => simp
         | some e2 =>
-          by_cases h2z : e2 = 0
-          · simp [deref_ne, assign_ne, hp.1, he0, h2z, load_store_same _ hp.2, store_store_same, Deque.setNext, Deque.setPrev]
-            split <;> simp [*]
-          · simp [deref_ne, assign_ne, hp.1, he0, h2z, load_store_same _ hp.2, store_store_same, Deque.setNext, Deque.setPrev]
-            split <;> simp [*]
+          -- `e1` may alias `e0` only in an ill-formed deque; decided here, before the translated side is normalised,
+          -- so that a read of slot `e0` after a store into slot `e1` (sequential assignments) is resolved either way
+          by_cases h10 : e1 = e0
+          · subst h10
+            by_cases h2z : e2 = 0 <;>
+              simp [deref_ne, assign_ne, hp.1, h2z, load_store_same _ hp.2, store_store_same, Deque.setNext, Deque.setPrev] <;>
+              dq_close
+          · by_cases h2z : e2 = 0 <;>
+              simp [deref_ne, assign_ne, hp.1, he0, h2z, load_store_same _ hp.2, load_store_other _ h10, store_store_same,
+                Deque.setNext, Deque.setPrev] <;>
+              dq_close
 
 theorem InsertBefore_eq (d : Deque) (value mark : Nat) : Deque_InsertBefore d value mark = d.insertBefore value mark := by
   unfold Deque_InsertBefore Deque.insertBefore
@@ -168,11 +177,15 @@ theorem InsertBefore_eq (d : Deque) (value mark : Nat) : Deque_InsertBefore d va
         cases h0 : d1.get (d1.load e2).prev with
         | none => simp
         | some e0 =>
-          by_cases h0z : e0 = 0
-          · simp [deref_ne, assign_ne, hp.1, he2, h0z, load_store_same _ hp.2, store_store_same, Deque.setNext, Deque.setPrev]
-            split <;> simp [*]
-          · simp [deref_ne, assign_ne, hp.1, he2, h0z, load_store_same _ hp.2, store_store_same, Deque.setNext, Deque.setPrev]
-            split <;> simp [*]
+          by_cases h12 : e1 = e2
+          · subst h12
+            by_cases h0z : e0 = 0 <;>
+              simp [deref_ne, assign_ne, hp.1, h0z, load_store_same _ hp.2, store_store_same, Deque.setNext, Deque.setPrev] <;>
+              dq_close
+          · by_cases h0z : e0 = 0 <;>
+              simp [deref_ne, assign_ne, hp.1, he2, h0z, load_store_same _ hp.2, load_store_other _ h12, store_store_same,
+                Deque.setNext, Deque.setPrev] <;>
+              dq_close
 
 /-! ## non-vacuity: the translated code run on concrete values -/
 
